@@ -347,7 +347,7 @@ class ReqTop(pg.Object):
   tag: T.Dict([]) = {}
 
 
-class Holder(pg.Object):
+class ReqHolder(pg.Object):
   """Typed fields (none of them partial) that accept the values above, plain
   typed dicts/lists and zero-field schemas."""
   top: T.Object(ReqTop).noneable() = None
@@ -364,7 +364,7 @@ class Holder(pg.Object):
   anyv: T.Any() = None
 
 
-C03_NESTED_CLASSES = (Empty, ReqLeaf, ReqMid, ReqTop, Holder)
+C03_NESTED_CLASSES = (Empty, ReqLeaf, ReqMid, ReqTop, ReqHolder)
 
 
 # ---------------------------------------------------------------------------
